@@ -12,7 +12,7 @@ use pdf::primitive::Primitive;
 use rayon::prelude::*;
 use serde_json::{json, Value};
 
-pub const DANGLING: &[(&str, u64)] = &[("free-entry", 47), ("beyond-size", 5000), ("gap-in-table", 48), ("freed-by-update-generation-kept", 46), ("freed-by-update", 45), ("listed-by-the-section-but-equal-to-size", 55), ("listed-by-both-sections-but-above-size", 57)];
+pub const DANGLING: &[(&str, u64)] = &[("free-entry", 47), ("beyond-size", 5000), ("gap-in-table", 48), ("freed-by-update-generation-kept", 46), ("freed-by-update", 45), ("listed-by-the-section-but-equal-to-size", 55), ("listed-by-both-sections-but-above-size", 57), ("number-above-a-million", 1_000_001), ("number-2^32-1", 4_294_967_295), ("number-2^53", 9_007_199_254_740_992)];
 
 /// assemble the rich document so that object 47 is a free entry, 48 lies in a gap of the table, 49 defines the end
 fn assemble(objs: &[(u64, Val)], stream_xref: bool) -> Vec<u8> {
@@ -493,7 +493,7 @@ pub fn run(tier: Tier, _seed: u64, tally: &mut Tally) -> CheckMeta {
     CheckMeta {
         prop: "C18",
         level: "model_checking",
-        rule: format!("document level: {} entry sites of the rich document (optional entries of catalog, page tree, pages, resources and their dictionary values, fonts, descriptors, images, forms, trees, outlines, annotations, fields, info; array elements, with the array written in place or stored as an indirect object of its own; and 12 required entries) x {{free entry, number beyond /Size, number in a gap of the table, object freed by an incremental update with the generation incremented / kept, number equal to /Size and number above /Size that the sections nevertheless list}} x {{classic table, xref stream}} x {{strict, tolerant}} x {{cached, uncached}}: the complete walk must equal the walk of the same document with the entry removed (required entries: no panic). Thorough: every pair of optional sites dangling at once (same class; table: strict and tolerant uncached, stream: strict cached). Model level: each of {} fields of the C15 model table pointed at a dangling number inside a real file, typed load compared with the load of the dictionary without the field. Full product, distinct by (site, class, configuration).", n_sites, n_fields),
+        rule: format!("document level: {} entry sites of the rich document (optional entries of catalog, page tree, pages, resources and their dictionary values, fonts, descriptors, images, forms, trees, outlines, annotations, fields, info; array elements, with the array written in place or stored as an indirect object of its own; and 12 required entries) x {{free entry, number beyond /Size, number in a gap of the table, object freed by an incremental update with the generation incremented / kept, number equal to /Size and number above /Size that the sections nevertheless list, numbers of 1000001, 2^32-1 and 2^53}} x {{classic table, xref stream}} x {{strict, tolerant}} x {{cached, uncached}}: the complete walk must equal the walk of the same document with the entry removed (required entries: no panic). Thorough: every pair of optional sites dangling at once (same class; table: strict and tolerant uncached, stream: strict cached). Model level: each of {} fields of the C15 model table pointed at a dangling number inside a real file, typed load compared with the load of the dictionary without the field. Full product, distinct by (site, class, configuration).", n_sites, n_fields),
         assumptions: vec!["'treated as absent' is decided differentially against the document with the entry removed".into()],
         exhaustive: true,
         bounds: json!({"dangling_classes": DANGLING.len()}),
